@@ -166,6 +166,8 @@ def s_terms(tier: str) -> list[Any]:
             ts.append(("any", [("atom", n) for n in combo]))
             ts.append(("all", [("atom", n) for n in combo]))
     for a, b, c in itertools.product(sub, repeat=3):
+        if a.startswith("plain") and b.startswith("plain"):
+            continue  # two plain functions have no operators
         ts.append(("and", ("or", ("atom", a), ("atom", b)), ("atom", c)))
         ts.append(("or", ("and", ("atom", a), ("atom", b)), ("atom", c)))
     return ts
